@@ -1,4 +1,5 @@
 import SemVerif.Spec.Preds
+import SemVerif.Spec.Codec
 open SemVerif
 
 def panicProj (r : Result) (s : String) : String := if r.panic.isSome then "panic" else s
@@ -26,6 +27,29 @@ def evalProp (prop : String) (p : Program) (r : Result) (linksOk : Bool) : List 
   | "C19" => (P_C19 p r, pi_stacks (fun i => isExtInstr i || !i.reads.isEmpty) r)
   | _ => (["unknown-property"], "")
   (tags, panicProj r proj)
+
+/-- C20 on the implementation: the flags of the native round trips (harness `X` line) -/
+def c20Tags (flags : String) : List String :=
+  let kv := (flags.splitOn " ").filterMap fun t => match t.splitOn "=" with
+    | [k, v] => some (k, v == "1")
+    | _ => none
+  let get (k : String) : Bool := (kv.find? (·.1 == k)).map (·.2) |>.getD false
+  if get "panic" then ["c20:panic-during-round-trip"] else
+  let astPart :=
+    if !get "ast_ser" then ["c20:ast-does-not-serialise"]
+    else if !get "ast_de" then
+      (if get "needs_escape" then ["F12:identifier-needing-json-escapes-does-not-deserialise"] else ["c20:ast-does-not-deserialise"])
+    else
+      (if get "ast_eq" then [] else ["c20:ast-round-trip-differs"]) ++
+      (if get "ast_text" then [] else ["c20:ast-re-serialised-text-differs"]) ++
+      (if get "run_eq" then [] else ["c20:analysing-the-deserialised-ast-differs"])
+  let stackPart (name : String) :=
+    (if get (name ++ "_eq") then [] else [s!"c20:{name}-round-trip-differs"]) ++
+    (if get (name ++ "_text") then [] else
+      if get (name ++ "_value") then ["F11:re-serialised-text-differs-only-in-map-order"] else [s!"c20:{name}-re-serialised-text-differs"])
+  (astPart ++ stackPart "gstack" ++ stackPart "fstack" ++
+    (if get "errs_eq" then [] else ["c20:error-list-round-trip-differs"]) ++
+    (if get "errs_text" then [] else ["c20:error-list-re-serialised-text-differs"])).eraseDups
 
 def groupProp (prop : String) (g : List (Program × Result)) : List String :=
   match prop with
@@ -59,7 +83,7 @@ def flushGroup (prop : String) (g : GroupAcc) : IO Unit := do
       | none => ""
     IO.println s!"CASE\t{g.firstIdx}\t{g.hdr}\t{if g.full then 1 else 0}\t{";".intercalate ti}\t{";".intercalate tm}\t{if g.full then 1 else 0}\t{feat},group={g.impl.length}"
 
-partial def loop (prop : String) (h : IO.FS.Stream) (idx : Nat) (curP : Option Program) (g : GroupAcc) : IO Unit := do
+partial def loop (prop : String) (h : IO.FS.Stream) (idx : Nat) (curP : Option Program) (g : GroupAcc) (curX : String := "") (curJ : Option String := none) : IO Unit := do
   let line ← h.getLine
   if line.isEmpty then
     flushGroup prop g
@@ -74,6 +98,10 @@ partial def loop (prop : String) (h : IO.FS.Stream) (idx : Nat) (curP : Option P
     | none =>
       if !isGroupProp prop then IO.println s!"CASE\t{idx}\t{g.hdr}\tBADPROG"
       loop prop h (idx + 1) none { g with bad := true }
+  else if line.startsWith "X " then
+    loop prop h idx curP g (line.drop 2).toString curJ
+  else if line.startsWith "J " then
+    loop prop h idx curP g curX (some (line.drop 2).toString)
   else if line.startsWith "D " then
     match curP with
     | none => loop prop h idx none g
@@ -86,7 +114,15 @@ partial def loop (prop : String) (h : IO.FS.Stream) (idx : Nat) (curP : Option P
       | some (ri, linksOk) =>
         let rm := run p
         let full := implTxt == printResult rm
-        if isGroupProp prop then
+        if prop == "C20" then
+          -- projection: the data-model encoding of the AST against serde_json's value
+          let enc := (encProgram p).render
+          let piOk := match curJ with
+            | some j => j == enc
+            | none => true
+          IO.println s!"CASE\t{idx}\t{g.hdr}\t{if piOk then 1 else 0}\t{";".intercalate (c20Tags curX)}\t\t{if full then 1 else 0}\t{features p ri},json={curJ.isSome}"
+          loop prop h (idx + 1) none g
+        else if isGroupProp prop then
           loop prop h (idx + 1) none { g with impl := (p, ri) :: g.impl, model := (p, rm) :: g.model, full := g.full && full }
         else
           let (ti, pii) := evalProp prop p ri linksOk
